@@ -79,3 +79,38 @@ Lemma c12b_font_loops_tied :
   c12b_makeos2_winascent = [":= bbox.URy"] /\
   c12b_makeos2_windescent = [":= -bbox.LLy"].
 Proof. repeat split; reflexivity. Qed.
+
+(* cff.Font's own copies of the queries, Outlines.BBox / BuiltinEncoding /
+   NumGlyphs, and Clone, as text *)
+Lemma c12b_cfont_tied :
+  c12b_cfont_wpdf_chain =
+    [("", ["f.FontMatrix"]);
+     ("f.IsCIDKeyed()", ["f.FontMatrices[f.FDSelect(glyph.ID(gid))]"; "f.FontMatrix"])] /\
+  c12b_cfont_wpdf_entry = ["= g.Width * (fm[0] * 1000)"] /\
+  c12b_cfont_widths_entry = ["= glyph.Width"] /\
+  c12b_cfont_gwpdf_chain =
+    [("f.IsCIDKeyed()", ["f.FontMatrices[f.FDSelect(gid)]"; "f.FontInfo.FontMatrix"]);
+     ("!(f.IsCIDKeyed())", ["f.FontInfo.FontMatrix"])] /\
+  c12b_cfont_gwpdf_q = [":= fm[0]"; "-= fm[1] * fm[2] / fm[3]"] /\
+  c12b_cfont_gwpdf_conds = ["f.IsCIDKeyed()"; "math.Abs(fm[3]) > 1e-6"] /\
+  c12b_cfont_gwpdf_returns = ["f.Glyphs[gid].Width * (q * 1000)"] /\
+  c12b_cfont_wmap_q = [":= f.FontMatrix[0]"; "-= f.FontMatrix[1] * f.FontMatrix[2] / f.FontMatrix[3]"; "*= 1000"] /\
+  c12b_cfont_wmap_conds = ["f.IsCIDKeyed()"; "math.Abs(f.FontMatrix[3]) > 1e-6"] /\
+  c12b_cfont_wmap_entry = ["= glyph.Width * q"] /\
+  c12b_cfont_fontbboxpdf_conds = ["glyphBox.IsZero()"; "bbox.IsZero()"] /\
+  c12b_cfont_fontbboxpdf_box = [":= f.Outlines.GlyphBBoxPDF(f.FontInfo.FontMatrix, glyph.ID(gid))"].
+Proof. repeat split; reflexivity. Qed.
+
+Lemma c12b_outlines_tied :
+  c12b_outlines_bbox_conds = ["glyphBox.IsZero()"; "first"] /\
+  c12b_outlines_bbox_box = [":= glyph.Extent()"] /\
+  c12b_builtin_conds = ["len(o.Encoding) != 256"; "gid <= 0 || int(gid) >= len(o.Glyphs)"] /\
+  c12b_builtin_entry = ["= "".notdef"""; "= o.Glyphs[gid].Name"] /\
+  c12b_builtin_returns = ["nil"; "res"] /\
+  c12b_cff_numglyphs = ["len(o.Glyphs)"] /\ c12b_glyf_numglyphs = ["len(o.Glyphs)"].
+Proof. repeat split; reflexivity. Qed.
+
+Lemma c12b_clone_tied :
+  c12b_clone_fontinfo = [":= *f.FontInfo"] /\ c12b_clone_outlines = [":= *f.Outlines"] /\
+  c12b_clone_returns = ["&Font{ FontInfo: &fontInfo, Outlines: &outlines, }"].
+Proof. repeat split; reflexivity. Qed.
